@@ -212,6 +212,7 @@ func init() {
 			g := newDocgen(rng, false)
 			g.strPool = append(append([]string{}, defaultStrPool...), "line1\r\nline2", "x\ty", " nbsp", " ls", "😀 astral", "key: value", "- item", "? q", "! bang", "0x1f", "0b11", "1_0", "2002-08-15T00:00:00Z", "=", "<<", "~", "null", "Null", "NULL", "y", "n", "Yes", "OFF")
 			g.mergeKeys = i%5 == 0
+			g.specialKeys = i%2 == 1
 			d := g.document()
 			text, form := renderDoc(d, i)
 			if g.mergeKeys {
